@@ -205,7 +205,15 @@ class AG:
                 return {"t": "hexpr", "h": a["h"], "args": a["args"], "html": rng.chance(o["html"])}
             return {"t": "expr", "arg": a, "html": rng.pick([0, 0, 0, 1, 2, 3]) if rng.chance(o["html"]) else 0}
         if k == "pblock":
-            return {"t": "pblock"}
+            n = {"t": "pblock"}
+            if o.get("pblock_args") and rng.chance(0.4):
+                # a use of the caller's block with a context argument and / or hash arguments, like any partial call
+                a = self.arg(scopes)
+                if a["a"] != "local" and rng.chance(0.75):
+                    n["ctx"] = a
+                if rng.chance(0.4):
+                    n["hash"] = [(rng.pick(["x", "k", "a"]), self.arg(scopes))]
+            return n
         if k == "if":
             return {"t": "if", "neg": rng.chance(0.35), "arg": self.arg(scopes), "body": self.nodes(scopes, depth - 1) + [{"t": "text", "s": "T"}],
                     "else": self.else_(scopes, depth), "incz": rng.chance(0.1)}
